@@ -11,7 +11,9 @@ import functools
 import io
 import json
 import os
+import shutil
 import struct
+import tempfile
 from collections.abc import Callable, Sequence
 from typing import Any
 
@@ -221,69 +223,85 @@ def _save_file(
         tensor_shards = _shard_tensors(tensors_to_save, max_shard_size_bytes)
         total_shards = len(tensor_shards)
 
-        # Save each shard, loading only necessary tensor data
+        # Save each shard, loading only necessary tensor data.
+        # Every shard is written to a temporary file and moved into place only after all
+        # shards have been written: a tensor being saved may be an ExternalTensor backed by
+        # a file that this save replaces (re-saving a loaded model), and a later shard must
+        # still read the old contents of a file an earlier shard is going to replace.
         all_filenames = []
+        staged_paths: list[tuple[str, str]] = []  # (temporary path, destination path)
         weight_map: dict[str, str] = {}  # Maps tensor name to shard filename
         current_offset = 0
         current_index = 0
-        for shard_idx, tensor_shard in enumerate(tensor_shards, start=1):
-            shard_filename = _get_shard_filename(str(location), shard_idx, total_shards)
+        temporary_dir = tempfile.mkdtemp(
+            dir=os.path.dirname(os.path.join(base_dir, location)) or ".",
+            prefix=f".{os.path.basename(location)}.",
+        )
+        try:
+            for shard_idx, tensor_shard in enumerate(tensor_shards, start=1):
+                shard_filename = _get_shard_filename(str(location), shard_idx, total_shards)
 
-            shard_path = os.path.join(base_dir, shard_filename)
-            all_filenames.append(shard_filename)
+                shard_path = os.path.join(temporary_dir, f"{shard_idx}.safetensors")
+                staged_paths.append((shard_path, os.path.join(base_dir, shard_filename)))
+                all_filenames.append(shard_filename)
 
-            # Build tensor_dict for this shard only
-            shard_dict: dict[str, Any] = {}
-            for shard_index, tensor in enumerate(tensor_shard):
-                if callback is not None:
-                    callback(
-                        tensor,
-                        ir.external_data.CallbackInfo(
-                            total=len(tensors_to_save),
-                            index=current_index,
-                            offset=current_offset,
-                            filename=shard_filename,
-                            shard_total=len(tensor_shard),
-                            shard_index=shard_index,
-                        ),
-                    )
-                # Key the entry by the initializer (value) name, which is what
-                # _replace_tensors looks it up by. The tensor's own name may be unset or
-                # different, and one tensor object may be shared by several initializers.
-                name = values_to_save[current_index].name
-                assert name is not None
-                shard_dict[name] = {
-                    "dtype": _IR_DTYPE_TO_SAFETENSORS_DTYPE[tensor.dtype],
-                    "shape": _get_tensor_storage_shape(tensor),
-                    "data": tensor.tobytes(),
-                }
-                # Update weight_map with shard filename
-                weight_map[name] = shard_filename
-                current_offset += tensor.nbytes
-                current_index += 1
+                # Build tensor_dict for this shard only
+                shard_dict: dict[str, Any] = {}
+                for shard_index, tensor in enumerate(tensor_shard):
+                    if callback is not None:
+                        callback(
+                            tensor,
+                            ir.external_data.CallbackInfo(
+                                total=len(tensors_to_save),
+                                index=current_index,
+                                offset=current_offset,
+                                filename=shard_filename,
+                                shard_total=len(tensor_shard),
+                                shard_index=shard_index,
+                            ),
+                        )
+                    # Key the entry by the initializer (value) name, which is what
+                    # _replace_tensors looks it up by. The tensor's own name may be unset or
+                    # different, and one tensor object may be shared by several initializers.
+                    name = values_to_save[current_index].name
+                    assert name is not None
+                    shard_dict[name] = {
+                        "dtype": _IR_DTYPE_TO_SAFETENSORS_DTYPE[tensor.dtype],
+                        "shape": _get_tensor_storage_shape(tensor),
+                        "data": tensor.tobytes(),
+                    }
+                    # Update weight_map with shard filename
+                    weight_map[name] = shard_filename
+                    current_offset += tensor.nbytes
+                    current_index += 1
 
-            if not hasattr(safetensors, "TensorSpec"):
-                safetensors.serialize_file(shard_dict, shard_path)
-            else:
-                # Keep strong references alive until serialize_file returns because
-                # TensorSpec stores raw data pointers.
-                tensor_data_refs = []
-                tensor_specs = {}
-                for name, spec in shard_dict.items():
-                    data = spec["data"]
-                    if not isinstance(data, bytearray):
-                        data = bytearray(data)
-                        spec["data"] = data
-                    # ctypes array backed by the same buffer — no copy needed.
-                    data_view = (ctypes.c_char * len(data)).from_buffer(data)
-                    tensor_data_refs.append((data, data_view))
-                    tensor_specs[name] = safetensors.TensorSpec(
-                        dtype=spec["dtype"],
-                        shape=spec["shape"],
-                        data_ptr=ctypes.addressof(data_view),
-                        data_len=len(data),
-                    )
-                safetensors.serialize_file(tensor_specs, shard_path)
+                if not hasattr(safetensors, "TensorSpec"):
+                    safetensors.serialize_file(shard_dict, shard_path)
+                else:
+                    # Keep strong references alive until serialize_file returns because
+                    # TensorSpec stores raw data pointers.
+                    tensor_data_refs = []
+                    tensor_specs = {}
+                    for name, spec in shard_dict.items():
+                        data = spec["data"]
+                        if not isinstance(data, bytearray):
+                            data = bytearray(data)
+                            spec["data"] = data
+                        # ctypes array backed by the same buffer — no copy needed.
+                        data_view = (ctypes.c_char * len(data)).from_buffer(data)
+                        tensor_data_refs.append((data, data_view))
+                        tensor_specs[name] = safetensors.TensorSpec(
+                            dtype=spec["dtype"],
+                            shape=spec["shape"],
+                            data_ptr=ctypes.addressof(data_view),
+                            data_len=len(data),
+                        )
+                    safetensors.serialize_file(tensor_specs, shard_path)
+
+            for temporary_path, destination_path in staged_paths:
+                os.replace(temporary_path, destination_path)
+        finally:
+            shutil.rmtree(temporary_dir, ignore_errors=True)
 
         # Save index file if sharding occurred
         if total_shards > 1:
